@@ -304,6 +304,7 @@ pub fn run(opts: &Opts) -> i32 {
   let mut divergences = 0u64;
   let mut monitor_violations = 0u64;
   let mut env_checked = 0u64;
+  let mut loose_runs = 0u64;     // runs whose measured gap (the tolerance of the timeout comparison) exceeds 1 ms
   let mut env_negative_done = false;
 
   struct Pending { layout: String, layout_json: serde_json::Value, schedule: String, fail_at: Option<usize>, script: String, calls: String, status: String, tol: u64 }
@@ -330,6 +331,7 @@ pub fn run(opts: &Opts) -> i32 {
       let env_seed = rng.next();
       let r = run_real(layout, &schedule, env_seed, None, tablet);
       cases += 1;
+      if r.tol > 1_000_000 { loose_runs += 1; }
       total_calls += r.calls.len() as u64;
       let n_calls = r.calls.len();
       // statistics on what the transcript contains
@@ -412,7 +414,7 @@ pub fn run(opts: &Opts) -> i32 {
     "rule": "each case = one run of the real loop against a seeded random environment schedule (arrival batches, timer ticks incl. late ones, spurious time-outs, interruptions, tablet events, device-gone) on a corpus/README/built-in/random layout, plus one run per injected-failure index; non-trivial and distinct = distinct (layout, answer sequence) whose transcript contains at least two sends",
     "chord_sends": chord_sends, "tablet_events_read": tablet_events, "interruptions": interrupted, "schedules_with_two_or_more_batches": multi_batch,
     "schedules_with_late_timer": late_timers, "device_end_reads": ends,
-    "divergences": divergences, "monitor_violations": monitor_violations, "runs_checked_as_instances_of_the_formal_environment": env_checked, "samples": samples, "findings": findings.len()
+    "divergences": divergences, "monitor_violations": monitor_violations, "runs_checked_as_instances_of_the_formal_environment": env_checked, "runs_with_tolerance_over_1ms": loose_runs, "samples": samples, "findings": findings.len()
   });
   if let Some(p) = opts.get("stats") { std::fs::write(p, serde_json::to_string_pretty(&stats).unwrap()).unwrap(); }
   println!("STATS {}", stats);
